@@ -389,6 +389,18 @@ def _sameArgument(x, y):
     return np.array_equal(x, y)
 
 
+def _rememberedArgument(x):
+    """What CachedFcn keeps of a call argument. The caller may refill an array, a list or a record dict in place
+    between two calls, so a copy is remembered: the next call is compared with the content the result belongs to."""
+    if isinstance(x, dict):
+        return {k: _rememberedArgument(v) for k, v in x.items()}
+    if isinstance(x, list):
+        return [_rememberedArgument(v) for v in x]
+    if isinstance(x, np.ndarray):
+        return x.copy()
+    return x
+
+
 class CachedFcn(UserFcn):
     """Represents a cached UserFcn.
 
@@ -425,8 +437,8 @@ class CachedFcn(UserFcn):
         # only remember the arguments once the call has succeeded: if it raised, a retry with the same arguments must
         # call the function again instead of returning the result remembered for the previous arguments
         result = super().__call__(*args, **kwds)
-        self.lastArgs = args
-        self.lastKwds = kwds
+        self.lastArgs = tuple(_rememberedArgument(x) for x in args)
+        self.lastKwds = {k: _rememberedArgument(v) for k, v in kwds.items()}
         self.lastReturn = result
         return self.lastReturn
 
